@@ -1018,6 +1018,10 @@ func (mc *modelCheck) run(t *testing.T) {
 			mc.judge(rt, c, typeOperandCase(rt))
 			return
 		}
+		if mc.Prop == "C02" && rapid.IntRange(0, 14).Draw(rt, "importBound") == 0 {
+			c02iRun(rt, c)
+			return
+		}
 		if mc.NestedChoice > 0 && rapid.IntRange(0, mc.NestedChoice-1).Draw(rt, "nestedChoice") == 0 {
 			mc.judge(rt, c, nestedChoiceCase(rt))
 			return
